@@ -33,9 +33,12 @@ namespace cppcms {
 			}
 			void clear()
 			{
-				while(pages_->next) {
-					page *p = pages_;
-					pages_ = pages_->next;
+				// keep the head: it is always a full size page, over-sized blocks are linked behind it
+				page *rest = pages_->next;
+				pages_->next = 0;
+				while(rest) {
+					page *p = rest;
+					rest = rest->next;
 					free(p);
 				}
 				data_ = pages_->data;
